@@ -312,6 +312,39 @@ class Func:
         self._calls = None
         self._guards = None
 
+    # ------------------------------------------------------------ specialisation
+    def specialise(self, argvals):
+        """a copy of this function in which parameters listed in argvals (MIR local -> bool/int) are known:
+        every switch on such a parameter is replaced by a goto, unreachable blocks disappear and the locals
+        they defined become single-definition again"""
+        import copy
+        body = copy.copy(self.body)
+        blocks = []
+        for bi, b in enumerate(self.body.blocks):
+            nb = copy.copy(b)
+            t = b.term
+            if t.kind == 'switch' and bi in self.cfg.nodes:
+                d = self.operand_term(t.discr)
+                if tag(d) == 'arg' and d[1] in argvals:
+                    v = int(argvals[d[1]])
+                    tgt = None
+                    for val, tg in t.targets:
+                        if val == v:
+                            tgt = tg
+                    if tgt is None:
+                        tgt = t.otherwise
+                    nt = copy.copy(t)
+                    nt.kind = 'goto'
+                    nt.target = tgt
+                    nt.targets = []
+                    nb.term = nt
+            blocks.append(nb)
+        body.blocks = blocks
+        body._names = None
+        g = Func(self.pdb, body)
+        g.spec = dict(argvals)
+        return g
+
     # ------------------------------------------------------------ definitions
     def _collect_defs(self):
         """local -> list of ('assign', bb, idx, rv) | ('call', bb, term); partial -> locals with projected writes"""
